@@ -231,7 +231,7 @@ func (tx *Tx) RangeScan(bucket string, start, end []byte) (es Entries, err error
 					df.rwManager.Close()
 					return nil, err
 				}
-				if item, err := df.ReadAt(int(r.H.dataPos)); err == nil {
+				if item, err := df.ReadAt(int(r.H.dataPos)); err == nil && item != nil {
 					es = append(es, item)
 				} else {
 					df.rwManager.Close()
@@ -416,6 +416,10 @@ func (tx *Tx) getStartIndexForFindPrefix(fID int64, curr *BinaryNode, prefix []b
 		if err != nil {
 			return 0, err
 		}
+		if entry == nil {
+			// the index points at an unwritten (or truncated) part of the data file
+			return 0, ErrNotFoundKey
+		}
 
 		newKey := getNewKey(string(entry.Meta.bucket), entry.Key)
 		if compare(newKey, prefix) >= 0 {
@@ -464,6 +468,10 @@ func (tx *Tx) findPrefixOnDisk(bucket string, fID, rootOff int64, prefix, newPre
 			df.rwManager.Close()
 			if err != nil {
 				return nil, off, err
+			}
+			if entry == nil {
+				// the index points at an unwritten (or truncated) part of the data file
+				return nil, off, ErrNotFoundKey
 			}
 
 			if !bytes.HasPrefix(entry.Key, prefix) || string(entry.Meta.bucket) != bucket {
@@ -540,6 +548,10 @@ func (tx *Tx) findPrefixSearchOnDisk(bucket string, fID, rootOff int64, prefix [
 			if err != nil {
 				return nil, off, err
 			}
+			if entry == nil {
+				// the index points at an unwritten (or truncated) part of the data file
+				return nil, off, ErrNotFoundKey
+			}
 
 			if !bytes.HasPrefix(entry.Key, prefix) || string(entry.Meta.bucket) != bucket {
 				scanFlag = false
@@ -591,6 +603,10 @@ func (tx *Tx) getStartIndexForFindRange(fID int64, curr *BinaryNode, start, newS
 		if err != nil {
 			return 0, err
 		}
+		if entry == nil {
+			// the index points at an unwritten (or truncated) part of the data file
+			return 0, ErrNotFoundKey
+		}
 
 		newStartTemp := getNewKey(string(entry.Meta.bucket), entry.Key)
 		if compare(newStartTemp, newStart) >= 0 {
@@ -632,6 +648,10 @@ func (tx *Tx) findRangeOnDisk(fID, rootOff int64, start, end, newStart, newEnd [
 			if err != nil {
 				return nil, err
 			}
+			if entry == nil {
+				// the index points at an unwritten (or truncated) part of the data file
+				return nil, ErrNotFoundKey
+			}
 
 			newEndTemp := getNewKey(string(entry.Meta.bucket), entry.Key)
 
@@ -669,7 +689,7 @@ func (tx *Tx) prefixScanByHintBPTSparseIdx(bucket string, prefix []byte, offsetN
 				df.rwManager.Close()
 				return nil, off, err
 			}
-			if item, err := df.ReadAt(int(r.H.dataPos)); err == nil {
+			if item, err := df.ReadAt(int(r.H.dataPos)); err == nil && item != nil {
 				es = append(es, item)
 				if len(es) == limitNum {
 					off = voff
@@ -716,7 +736,7 @@ func (tx *Tx) prefixSearchScanByHintBPTSparseIdx(bucket string, prefix []byte, r
 				df.rwManager.Close()
 				return nil, off, err
 			}
-			if item, err := df.ReadAt(int(r.H.dataPos)); err == nil {
+			if item, err := df.ReadAt(int(r.H.dataPos)); err == nil && item != nil {
 				es = append(es, item)
 				if len(es) == limitNum {
 					off = voff
@@ -848,7 +868,7 @@ func (tx *Tx) getHintIdxDataItemsWrapper(records Records, limitNum int, es Entri
 				if err != nil {
 					return nil, err
 				}
-				if item, err := df.ReadAt(int(r.H.dataPos)); err == nil {
+				if item, err := df.ReadAt(int(r.H.dataPos)); err == nil && item != nil {
 					es = append(es, item)
 				} else {
 					df.rwManager.Close()
@@ -951,6 +971,10 @@ func (tx *Tx) FindOnDisk(fID uint64, rootOff uint64, key, newKey []byte) (entry 
 
 		if err != nil {
 			return nil, err
+		}
+		if entry == nil {
+			// the index points at an unwritten (or truncated) part of the data file
+			return nil, ErrNotFoundKey
 		}
 
 		newKeyTemp := getNewKey(string(entry.Meta.bucket), entry.Key)
